@@ -4,8 +4,7 @@ import struct
 from ..chain import *
 from .. import gen, core, run
 
-THEOREMS = ['C02_max_height', 'C02_delivers_exact_range', 'C02_heights_are_the_range', 'C02_heights_once', 'C02_loop_inclusive',
-            'C02_refuted_on_pinned_tree', 'C02_outside_never_read', 'C02_range_sees_same_blocks', 'C02_csv_range_is_slice', 'C02_opreturn_range_is_slice']
+THEOREMS = core.pinned('C02')
 CBS = ['csv', 'unspent', 'balances', 'opreturn', 'stats']
 
 def chain_for(r, coin, n):
